@@ -168,14 +168,15 @@ class Ctx:
         return finals
 
     def validate(self, module: str, traces: list[dict], *, cfg: str | None = None,
-                 timeout: int = 1800, chunk: int = 4000, workers: int | str = 1,
+                 timeout: int = 1800, chunk: int = 40000, workers: int | str = 1,
                  env: dict[str, str] | None = None) -> dict[int, list[tuple[str, int]]]:
         """Trace validation: TLC evaluates the property formulas of *module* on every recorded
         trace.  Returns {index in traces: [(violated formula, step)]}; traces absent are OK."""
         verdicts: dict[int, list[tuple[str, int]]] = {}
+        jobs = []
         for base in range(0, len(traces), chunk):
             part = traces[base:base + chunk]
-            wd = self.work / f"v-{module}-{base}"
+            wd = self.work / f"v-{module}-{len(self.tlc_runs)}-{base}"
             wd.mkdir(parents=True, exist_ok=True)
             tf = wd / "traces.ndjson"
             with tf.open("w") as f:
@@ -186,8 +187,17 @@ class Ctx:
             e = {"TRACE_FILE": str(tf)}
             if env:
                 e.update(env)
-            res = tlc.run_tlc(module, cfg, workdir=wd, workers=workers, timeout=timeout,
-                              cont=True, env=e)
+            jobs.append((base, part, wd, e))
+
+        def _one(job):
+            base, part, wd, e = job
+            return tlc.run_tlc(module, cfg, workdir=wd, workers=workers, timeout=timeout,
+                               cont=True, env=e)
+
+        from concurrent.futures import ThreadPoolExecutor
+        with ThreadPoolExecutor(max_workers=3) as ex:
+            results = list(ex.map(_one, jobs))
+        for (base, part, wd, e), res in zip(jobs, results):
             self._account(module, res, "trace-validation")
             self.traces_validated += len(part)
             for v in res.violations:
@@ -207,6 +217,7 @@ class Ctx:
                 raise MachineryError(
                     f"trace validation {module}: only {res.distinct} states for {expect} trace "
                     f"positions (traces not fully consumed)")
+            shutil.rmtree(wd, ignore_errors=True)
         return verdicts
 
     # ---------------------------------------------------------------- bookkeeping
